@@ -4,6 +4,7 @@ import (
 	"fmt"
 	"math/big"
 	"strconv"
+	"strings"
 	"testing"
 
 	"pgregory.net/rapid"
@@ -90,6 +91,18 @@ func carrierFor(t *rapid.T, r *big.Rat) run.Node {
 	} else {
 		// 2.5 -> 2.50, also as a decimal with another scale, and in exponent form
 		opts = append(opts, run.Node{T: "json.Number", S: txt + "0"}, run.Node{T: "decimal", S: txt + "00"}, run.Node{T: "json.Number", S: txt + "e0"}, run.Node{T: "json.Number", S: txt + "E+0"})
+		// the same value without a decimal point: 2.5 -> 25e-1, 25E-1, 250e-2
+		if i := strings.IndexByte(txt, '.'); i >= 0 && !strings.ContainsAny(txt, "eE") {
+			digits := strings.TrimLeft(strings.Replace(txt, ".", "", 1), "0")
+			neg := ""
+			if strings.HasPrefix(digits, "-") {
+				neg, digits = "-", strings.TrimLeft(digits[1:], "0")
+			}
+			k := len(txt) - i - 1
+			if digits != "" {
+				opts = append(opts, run.Node{T: "json.Number", S: neg + digits + "e-" + strconv.Itoa(k)}, run.Node{T: "json.Number", S: neg + digits + "E-" + strconv.Itoa(k)}, run.Node{T: "json.Number", S: neg + digits + "0e-" + strconv.Itoa(k+1)}, run.Node{T: "decimal", S: neg + digits + "e-" + strconv.Itoa(k)})
+			}
+		}
 	}
 	if r.Sign() == 0 {
 		// the zeros: negative zero and zeros with a scale are the number 0
